@@ -5,4 +5,6 @@ cd "$(dirname "$0")"
 export CARGO_NET_OFFLINE=true
 (cd driver && cargo +nightly build --release --offline)
 python3 -m analysis.extract D
+# thorough tier: second build configuration (libdeflate variants of the BGZF / CRAM gzip codecs)
+python3 -m analysis.extract L
 echo "setup ok"
